@@ -415,6 +415,14 @@ def install(ifconv=True, pred=True, merged_nmea=True, crc_ifconv=True):
     info['mods'] = {'rm': rm, 'rh': rh, 'rr': rr, 'sw': sw}
     _STATE.update(info)
     _STATE['tracked'] = _track_shared()
+    # package/class-level empty bytearrays become mutable symbolic byte buffers, so that in-place growth by symbolic data is modelled
+    for i, (owner, k, kind, qual) in enumerate(list(_STATE['tracked'])):
+        try:
+            v = owner.__dict__[k]
+        except KeyError:
+            continue
+        if isinstance(v, bytearray) and len(v) == 0:
+            setattr(owner, k, SymBytes([], mutable=True))
     _STATE['bindings'] = _track_bindings()
     owners = []
     for o in {id(b[0]): b[0] for b in _STATE['bindings']}.values():
@@ -483,7 +491,7 @@ def reset_shared():
         except (KeyError, AttributeError):
             continue
         if kind == 'empty':
-            if isinstance(v, (dict, list, set, bytearray)) and len(v) > 0:
+            if isinstance(v, (dict, list, set, bytearray, SymBytes)) and len(v) > 0:
                 SHARED_WRITES.add(qual)
                 v.clear()
         elif v is not None:
